@@ -363,7 +363,9 @@ func (s *sim) createPodSideObjects(pc PodCfg) {
 }
 
 func (s *sim) createVA(name, pv string) {
-	s.w.EnvCreate(&storagev1.VolumeAttachment{ObjectMeta: metav1.ObjectMeta{Name: name},
+	// the CSI external-attacher holds a finalizer: a deleted VolumeAttachment stays (deletionTimestamp set, detach in
+	// progress) until the VolumeDetach step removes it
+	s.w.EnvCreate(&storagev1.VolumeAttachment{ObjectMeta: metav1.ObjectMeta{Name: name, Finalizers: []string{"external-attacher/csi-verif"}},
 		Spec: storagev1.VolumeAttachmentSpec{Attacher: "csi.verif", NodeName: nodeName,
 			Source: storagev1.VolumeAttachmentSource{PersistentVolumeName: &pv}}})
 }
@@ -527,6 +529,17 @@ func (s *sim) step(st Step) error {
 		if !w.EnvMutate(b, "PdbFlip", func() { b.Status.DisruptionsAllowed = int32(st.Allowed) }) {
 			s.skip(st.A, "no-pdb")
 		}
+	case "VolumeDetachStart": // the attach-detach controller deletes the VolumeAttachment; the detach itself is still running
+		name := "va-" + st.Pod
+		if st.Pod == "" {
+			name = "va-orphan"
+		}
+		va := &storagev1.VolumeAttachment{ObjectMeta: metav1.ObjectMeta{Name: name}}
+		if !w.Get(va) || !va.DeletionTimestamp.IsZero() {
+			s.skip(st.A, "no-va-or-already-detaching")
+			return nil
+		}
+		_ = w.Client.Delete(world.WithActor(context.Background(), "env"), va)
 	case "VolumeDetach":
 		name := "va-" + st.Pod
 		if st.Pod == "" {
@@ -598,7 +611,7 @@ func (s *sim) step(st Step) error {
 		w.Clock.SetTo(world.Epoch.Add(time.Duration(st.To) * time.Second))
 	case "Settle": // the environment goes quiet and cooperates; every controller runs until nothing is left (bounded progress)
 		rounds, claimGone, nodeGone := 0, false, false
-		for ; rounds < 12; rounds++ {
+		for ; rounds < 14; rounds++ {
 			claimGone = !w.Get(claim())
 			nodeGone = !w.Get(node()) && !w.Get(&corev1.Node{ObjectMeta: metav1.ObjectMeta{Name: nodeName + "-dup"}})
 			if claimGone && nodeGone {
@@ -621,11 +634,15 @@ func (s *sim) step(st Step) error {
 				seq = append(seq, Step{A: "NodeRec", Which: nodeName + "-dup"})
 			}
 			seq = append(seq, Step{A: "LcRec"})
-			if rounds >= 3 { // volumes detach late, so that the wait (or the deadline) is exercised first
+			if rounds >= 2 { // volumes detach late (first "deleting", two rounds later gone), so that the wait is exercised first
 				vas := &storagev1.VolumeAttachmentList{}
 				w.List(vas)
 				for i := range vas.Items {
-					w.EnvRemove(&vas.Items[i], "VolumeDetached")
+					if rounds >= 4 {
+						w.EnvRemove(&vas.Items[i], "VolumeDetached")
+					} else if vas.Items[i].DeletionTimestamp.IsZero() {
+						_ = w.Client.Delete(world.WithActor(context.Background(), "env"), &vas.Items[i])
+					}
 				}
 			}
 			for _, x := range seq {
